@@ -542,6 +542,12 @@ func Send[T any](ch chan<- T, v T) {
 	}
 }
 
+// Sender is the form the rewriter emits: Sender(ch)(v) == Send(ch, v), with the element type taken
+// from the channel alone.
+func Sender[T any](ch chan<- T) func(T) {
+	return func(v T) { Send(ch, v) }
+}
+
 // Recv2 replaces `v, ok := <-ch`.
 func Recv2[T any](ch <-chan T) (T, bool) {
 	w := controlled()
